@@ -321,6 +321,25 @@ def run_repeat(case):
   view2 = make_view(ds, case)
   require(same_batches(first, read(view2, case)), 'second_view_differs',
           lambda: _diff(case, first, read(view2, case)))
+  # Two passes over the same view that are alive at the same time (the view
+  # "can be iterated over multiple times"; nothing says one pass must finish
+  # before the next starts): advanced in lock-step, each yields the seeded stream.
+  want, _ = expected_batches(case)
+  limit = want if expected_batches(case)[1] else want + 3
+  it_a, it_b = iter(view), iter(view)
+  inter_a, inter_b = [], []
+  for _ in range(limit):
+    xa = next(it_a, None)
+    xb = next(it_b, None)
+    if xa is None and xb is None:
+      break
+    if xa is not None:
+      inter_a.append(xa)
+    if xb is not None:
+      inter_b.append(xb)
+  require(same_batches(first, inter_a) and same_batches(first, inter_b),
+          'interleaved_iterations_differ',
+          lambda: _diff(case, first, inter_a) + ' | ' + _diff(case, first, inter_b))
   other_call = 'hparams' if case['call'] != 'hparams' else 'kwargs'
   view3 = make_view(make_dataset(case), case, call=other_call)
   got = read(view3, case)
